@@ -4,6 +4,8 @@
 #include <sys/mman.h>
 #include <unistd.h>
 
+#include <map>
+
 #include "common.h"
 
 using nlohmann::json;
@@ -204,6 +206,17 @@ void runVld(const json& ep)
                 Packet p(static_cast<CmpHeader::MessageType>(mt), g.ptr, bytes.size());
                 o.key("pkt");
                 snapPacket(o, p);
+                // a packet reported valid is used through its typed payload class: every accessor, on the packet's own bytes
+                static const std::map<uint32_t, const char*> kinds = {{PayloadType::can, "can"},       {PayloadType::canFd, "canfd"},
+                                                                      {PayloadType::lin, "lin"},       {PayloadType::ethernet, "eth"},
+                                                                      {PayloadType::analog, "analog"}, {PayloadType::cmStatMsg, "cm"},
+                                                                      {PayloadType::ifStatMsg, "if"}};
+                const auto it = kinds.find(p.getPayload().getType().getType());
+                if (p.isValid() && it != kinds.end())
+                {
+                    o.kv("kind", it->second);
+                    accessors(o, it->second, p.getPayload().getRawPayload(), p.getPayload().getLength());
+                }
             }
             o.end();
         }
